@@ -65,6 +65,7 @@ IN_S2 = S([0.05, 0, 0], 0.3)          # strictly inside S_GROW for every t (IN_S
 # convex polyhedra realised by TrimeshPolyhedron (reference: tpmc.ref.poly3d); inward winding / STL file as variants
 M_TET = M("tetra")
 M_BOX = M("box", "in", "file")
+M_TALL = M("tall")
 M_IN_S = S([1.2, 0.0, 0.6], 0.3)        # inside the box
 M_G_S = S([0.9, 0.6, 0.4], 0.6)         # generic position w.r.t. the tetrahedron
 # parameter intervals used as second product factors
@@ -100,7 +101,7 @@ def leaves1(tier):
 
 
 def leaves3(tier):
-    out = [S1, S_GROW, S2, M_TET, M_BOX, Rot3(M_BOX, 0.7, "z", around=[0.2, 0.1, 0.0]), Rot3(S2, aff(0.2, t=1.0), "x")]
+    out = [S1, S_GROW, S2, M_TET, M_BOX, M_TALL, Rot3(M_BOX, 0.7, "z", around=[0.2, 0.1, 0.0]), Rot3(S2, aff(0.2, t=1.0), "x")]
     if tier == "thorough":
         out += [S_MOVE, M("tetra", "in", "arrays"), M("tetra", "out", "file"), M("box", "out", "arrays")]
     return out
